@@ -33,6 +33,22 @@ SEEDS = {
  'C15-1': ('C15', 'C15/mut1.diff', 'C15/demo_mut1.rs', 'Group::count loses its recursive factor: C3 -> S3 growth goes unnoticed by progress()'),
  'C15-2': ('C15', 'C15/mut2.diff', 'C15/demo_mut2.rs', 'sum_of_slots over syn_slots: a proven redundancy no longer moves the progress measure'),
  'C16-1': ('C16', 'C16/mut1.diff', 'C16/demo_mut1.rs', 'Bind::weak_shape_impl uses on_see_slot for the binder: shadowing names'),
+ 'C01b-1': ('C01', 'C01b/mut1.diff', 'C01b/demo_mut1.rs', 'determine_self_symmetries compares only public slot occurrences of the weak shapes: binder over a class with a 3-cycle symmetry'),
+ 'C01b-2': ('C01', 'C01b/mut2.diff', 'C01b/demo_mut2.rs', 'handle_pending hands a non-minimal variant to handle_congruence: child class with symmetry, parent whose syntactic form is not minimal, congruence after the symmetry'),
+ 'C02b-1': ('C02', 'C02b/mut1.diff', 'C02b/demo_mut1.rs', 'touched_class skips usages that live in the touched class itself: self-referential equation followed by a redundancy on the same class'),
+ 'C02b-2': ('C02', 'C02b/mut2.diff', 'C02b/demo_mut2.rs', 'handle_pending ignores an upward-merge hit in the same class: p(a(x),b(y)) = p(b(y),a(x)) then a(z) = b(z) implies a self-symmetry'),
+ 'C04b-1': ('C04', 'C04b/mut1.diff', 'C04b/demo_mut1.rs', 'ematch_node returns instead of continuing with the next variant when one variant fails on a child'),
+ 'C04b-2': ('C04', 'C04b/mut2.diff', 'C04b/demo_mut2.rs', 'apply_substs_cond drops substitutions whose classes were merged away by an earlier applier of the same call'),
+ 'C08b-1': ('C08', 'C08b/mut1.diff', 'C08b/demo_mut1.rs', 'unionfind_get_impl shortcut when the parent entry already points to a leader: chain of depth 2, leader shrank after the middle entry was written'),
+ 'C08b-2': ('C08', 'C08b/mut2.diff', 'C08b/demo_mut2.rs', 'pc_find keeps the stale syntactic invocation: a class shrinks twice (own union, then a child loses a slot)'),
+ 'C09b-1': ('C09', 'C09b/mut1.diff', 'C09b/demo_mut1.rs', 'same change as C09-1 (pre_shape key over public occurrences), found independently'),
+ 'C09b-2': ('C09', 'C09b/mut2.diff', 'C09b/demo_mut2.rs', 'lookup_internal filters by syn_slots instead of class slots: returned invocation carries redundant slots'),
+ 'C13b-1': ('C13', 'C13b/mut1.diff', 'C13b/demo_mut1.rs', 'unionfind_get_impl follows a single hop: uncompressed chain of length >= 3'),
+ 'C13b-2': ('C13', 'C13b/mut2.diff', 'C13b/demo_mut2.rs', 'unionfind_get_impl stores the compressed entry but returns the stale one'),
+ 'C06b-1': ('C06', 'C06b/mut1.diff', 'C06b/demo_mut1.rs', 'Extractor::extract canonicalises only the id of the query, not its slot map: extraction through a stale id that has slots'),
+ 'C06b-2': ('C06', 'C06b/mut2.diff', 'C06b/demo_mut2.rs', 'apply_slotmap_fresh called twice (children / result node): a redundant slot in a slot field and in a child argument of the cheapest node'),
+ 'C10b-1': ('C10', 'C10b/mut1.diff', 'C10b/demo_mut1.rs', 'schreiers_lemma skips the identity coset representative: needs >= 5 slots, e.g. generators (3 4) and (0 1)(2 3)'),
+ 'C10b-2': ('C10', 'C10b/mut2.diff', 'C10b/demo_mut2.rs', 'add_set fast path into the stabiliser without rebuilding the upper level: swap (0 1) first, then swap (1 2)'),
  'C16-2': ('C16', 'C16/mut2.diff', 'C16/demo_mut2.rs', 'Bind::public_slot_occurrences_iter leaks inner binders: nested Bind<Bind<T>>'),
 }
 def main():
